@@ -1,5 +1,7 @@
 import TbbVerif.Core.Proto
 import TbbVerif.Model.C01
+import TbbVerif.Model.C01Tso
+import TbbVerif.Model.C01DispatchDrv
 
 open TbbVerif
 
@@ -9,7 +11,9 @@ def drivers : List (String × Proto.Driver) := [
   ("c01mb", C01.driverMailbox),
   ("c01st", C01.driverStream),
   ("c01vx", C01.driverVertex),
-  ("c01ft", C01.driverFold)
+  ("c01ft", C01.driverFold),
+  ("c01tso", C01.DequeTso.driverTso),
+  ("c01dp", C01.Dispatch.driverDispatch)
 ]
 
 def main (args : List String) : IO UInt32 := Proto.mainOf drivers args
